@@ -19,7 +19,7 @@ tvars == <<objs, mem, ph, hist, l>>
 Ev == Trace[l]
 
 TMake == /\ l <= Len(Trace) /\ Ev.e = "make"
-         /\ objs' = <<Obj(Ev.k, "", Ev.r, Ev.c, [p \in 1..Len(Ev.vals) |-> p], FALSE, FALSE, "own", 0, 0)>>
+         /\ objs' = <<Obj(Ev.k, "", Ev.r, Ev.c, [p \in 1..Len(Ev.vals) |-> p], FALSE, FALSE, "own", 0, 0, "make")>>
          /\ mem' = [p \in 1..Len(Ev.vals) |-> Cell(Ev.vals[p], 0)]
          /\ l' = l + 1 /\ UNCHANGED <<ph, hist>>
 
